@@ -13,13 +13,13 @@ EXTENDS VLib
 
 VARIABLES writes,   \* id -> [op, call, ret]   (ret = 0 while the call has not returned)
           rcall,    \* p -> line at which p's current read was called
-          cat, mode
+          cat, mode   \* cat carries the scope suffix of the scenario (":xnode", ":fault=...") so that details name it
 vars == <<l, viol, writes, rcall, cat, mode>>
 
 W0 == (0 :> [op |-> "init", call |-> 0, ret |-> 1])   \* the pre-existing value / list element 0
 Init == l = 1 /\ viol = {} /\ writes = W0 /\ rcall = <<>> /\ cat = "?" /\ mode = "?"
 
-TrCfg == /\ Is("Cfg") /\ cat' = Ev.cat /\ mode' = Ev.mode
+TrCfg == /\ Is("Cfg") /\ cat' = (IF Has("scope") /\ Ev.scope # "" THEN Ev.cat \o ":" \o Ev.scope ELSE Ev.cat) /\ mode' = Ev.mode
          /\ l' = l + 1 /\ UNCHANGED <<viol, writes, rcall>>
 
 IsWriteOp(o) == o \in {"Set", "Del", "App", "Rem"}
@@ -62,7 +62,8 @@ ListViol(e) ==
 TrRet == /\ Is("Ret")
          /\ IF IsWriteOp(Ev.op)
             THEN /\ writes' = IF Ev.ok THEN [writes EXCEPT ![Ev.id].ret = l]
-                              ELSE [w \in DOMAIN writes \ {Ev.id} |-> writes[w]]   \* a refused write wrote nothing
+                              ELSE writes   \* a write that returned an error may or may not have taken effect: it stays a
+                                            \* candidate explanation for later reads (ret = 0) but obliges nothing
                  /\ viol' = viol
             ELSE /\ writes' = writes
                  /\ viol' = viol \cup (IF mode = "kv" THEN ReadViol(Ev) ELSE ListViol(Ev))
